@@ -73,6 +73,15 @@ MUTANTS = {
  'C11-skip-after-match': ('C11', SY, '                start_index += l_index_mol\n', '                start_index += l_index_mol + 1\n'),
  'C11-first-occurrence-only-unconsumed': ('C11', SY, '                av_gro[start_index:start_index+l_index_mol] = -1\n', ''),
  'C11-len-counts-blocks': ('C11', SY, 'return sum(elem[2] for elem in self._molecules_ordered)', 'return len(self._molecules_ordered)'),
+ 'C04-result-aliases-target': ('C04', XM, 'new_mol = self._targetmolecule.copy()', 'new_mol = self._targetmolecule'),
+ 'C04-species-check-dropped': ('C04', XM, 'if self._refmolecule != refmolecule:', 'if False:'),
+ 'C04-frames-cached-per-object': ('C04', XM, '        self._calculate_refsystems(refmolecule)\n        new_mol = self._restore_molecule()',
+                                  '        if refmolecule is not getattr(self, "_last", None):\n            self._calculate_refsystems(refmolecule)\n        self._last = refmolecule\n        new_mol = self._restore_molecule()'),
+ 'C04-resids-not-copied': ('C04', XM, '        new_mol.resids = refmolecule.resids\n', ''),
+ 'C04-map-remade-per-call': ('C04', XM, '        self._calculate_refsystems(refmolecule)\n        new_mol = self._restore_molecule()',
+                             '        self._calculate_refsystems(refmolecule)\n        self._make_map()\n        new_mol = self._restore_molecule()'),
+ 'C04-hidden-randomness': ('C04', XM, '        self._calculate_refsystems(refmolecule)\n        new_mol = self._restore_molecule()',
+                           '        self._calculate_refsystems(refmolecule)\n        np.random.rand()\n        new_mol = self._restore_molecule()'),
 }
 
 
